@@ -712,6 +712,38 @@ def run_C02(ctx):
     n = 150 if ctx['tier'] == 'quick' else 20000
     texts = [gen_text.rand_valid_text(rng) for _ in range(n)]
     correspondence(ctx, [streams.sess_texts(texts, ('string',), tag='valid')], proj_read, None, 'C02 grammar conformance', 'random-valid')
+    c02_options_do_not_change_the_grammar(ctx)
+
+def c02_options_do_not_change_the_grammar(ctx):
+    """the language accepted and the tree built do not depend on the configuration's options (auto-convert converts VALUES
+    on get/set, it does not make an array of mixed numeric types grammatical; the output options concern writing only):
+    mixed and homogeneous arrays, lists, groups, every numeric spelling - read under every option word that matters"""
+    texts = [b'a = [ 1.5, 2 ];', b'a = [ 1, 2.5 ];', b'a = [ 7, 8L ];', b'a = [ 0x10L, 3 ];', b'a = [ 1, 2, 3.0 ];', b'a = [ 1L, 2L, 3 ];', b'a = [ 1.0, 2.0, 0x1 ];',
+             b'a = [ 1, 2 ]; b = [ 1.5, 2.5 ]; c = [ 1L, 2L ];', b'a = ( 1, 2.5, 3L, "s", true );', b'a = [ true, 1 ];', b'a = [ "s", 1.5 ];', b'a = [ 1, "s" ];',
+             b'g = { a = [ 1,\n 2,\n 3.5 ]; };', b'a = [ 1 ]; a = [ 2.5 ];', b'l = ( [ 1, 2.5 ] );']
+    def fn(impl, rng, stats):
+        for opts in (22, 23, 22 | 128, 23 | 128, 0, 1, 255):
+            for t in texts:
+                impl.do('init'); impl.do('set_options %d' % opts)
+                impl.do('read_string ' + hexs(t)); impl.do('err'); impl.do('dump'); impl.do('wf')
+                stats['c02:options-grid'] = stats.get('c02:options-grid', 0) + 1
+    def oracle(ops, outs):
+        # the verdict and the error record of a text under option word 22 (the default) are the reference for every other
+        # word that differs from it only in bits that do not concern reading (everything but ALLOW_OVERRIDES = 128)
+        ref = {}
+        cur = None
+        for i, o in enumerate(ops):
+            w = o.split(' ')
+            if w[0] == 'set_options':
+                cur = int(w[1])
+            elif w[0] == 'read_string' and i + 1 < len(outs):
+                key = (w[1], cur & 128)
+                val = (outs[i].split(' ')[0], outs[i + 1])
+                if key in ref and ref[key] != val:
+                    return i, 'the same text is read differently under option word %d: %r, under another word with the same override bit: %r' % (cur, val, ref[key])
+                ref.setdefault(key, val)
+        return None
+    correspondence(ctx, [fn], proj_read, oracle, 'C02 grammar conformance', 'options-grid')
 
 def run_C08(ctx):
     rng = Rng(ctx['seed'] * 104729 + 8)
@@ -1169,6 +1201,9 @@ def run_C10_all(ctx):
 REGISTRY['C10'] = dict(modules=['LibconfigModel.Properties.C10', 'LibconfigModel.Properties.C10Splice', 'LibconfigModel.Properties.C10SpliceTotal', 'LibconfigModel.Properties.Skeleton', 'LibconfigModel.Properties.C10Prov'], run=run_C10_all, assumptions=COMMON_ASSUMPTIONS)
 def run_C11_all(ctx):
     props_c1011.run_C11(ctx)
+    c11_ioerr_and_reread(ctx, 'C11 release of files and buffers')
+
+def c11_ioerr_and_reread(ctx, what_label):
     # two faults in one read: an included file whose read fails (treated as its end) and, later, a parse error while still
     # inside an included file - the include stack must be unwound (buffers deleted, streams closed) AND the record must be
     # the I/O error; also the plain cases: read error in the top file of a chain, in the last file, with/without later text
@@ -1197,7 +1232,7 @@ def run_C11_all(ctx):
                 return i, 'a read during which an included file could not be read left the record %r' % outs[i]
         return None
     correspondence(ctx, [fn], lambda op, out: None if first_word(op) in ('probe_badfile', 'fdmark') else out, oracle,
-                   'C11 release of files and buffers', 'io-error-inside-include')
+                   what_label, 'io-error-inside-include')
     # what a read recorded is released by the NEXT call on the same configuration too: first reads that name files but
     # leave the root empty (empty file, comments only, an error or a missing include on line 1, an include of such a
     # file), each followed by every kind of second call; LeakSanitizer is asked right after the second call and after
@@ -1228,7 +1263,7 @@ def run_C11_all(ctx):
                 return i, 'memory recorded by an earlier read of the same configuration was never released (LeakSanitizer) after: %s' % ' ; '.join(ops[max(0, i - 6):i])[:300]
         return None
     correspondence(ctx, [reread], lambda op, out: None if first_word(op) == 'fdmark' else out, oracle_reread,
-                   'C11 release of files and buffers', 'second-call')
+                   what_label, 'second-call')
 
 REGISTRY['C11'] = dict(modules=['LibconfigModel.Properties.CFlow', 'LibconfigModel.Properties.C11', 'LibconfigModel.Properties.Skeleton'], run=run_C11_all, assumptions=COMMON_ASSUMPTIONS)
 
@@ -1236,7 +1271,13 @@ import props_c17
 REGISTRY['C17'] = dict(modules=['LibconfigModel.Properties.C17'], run=props_c17.run_C17, assumptions=COMMON_ASSUMPTIONS)
 
 import props_c03
-REGISTRY['C03'] = dict(modules=['LibconfigModel.Properties.CFlow', 'LibconfigModel.Properties.C03', 'LibconfigModel.Properties.C03Term', 'LibconfigModel.Properties.Skeleton', 'LibconfigModel.Properties.C20Buffer', 'LibconfigModel.Properties.C03Stack'], run=props_c03.run_C03, assumptions=COMMON_ASSUMPTIONS + [
+def run_C03_all(ctx):
+    props_c03.run_C03(ctx)
+    # two faults in one read (an unreadable included file, then a parse error while still inside an include) and second
+    # calls on a configuration whose previous read left only file names: descriptors and LeakSanitizer after each call
+    c11_ioerr_and_reread(ctx, 'C03 memory safety of reads')
+
+REGISTRY['C03'] = dict(modules=['LibconfigModel.Properties.CFlow', 'LibconfigModel.Properties.C03', 'LibconfigModel.Properties.C03Term', 'LibconfigModel.Properties.Skeleton', 'LibconfigModel.Properties.C20Buffer', 'LibconfigModel.Properties.C03Stack'], run=run_C03_all, assumptions=COMMON_ASSUMPTIONS + [
     'PARTIAL: memory safety of the C code (flex buffer pointer arithmetic, memmove/realloc, ctype on char) is observed by ASan/UBSan/LSan on the executed paths only — validation, not proof',
     'the containers are modelled as size/index state machines (Containers.lean); that the C functions perform exactly these updates is read off strbuf.c, strvec.c, libconfig.c by hand and exercised under ASan',
     'the generic flex/bison skeleton loops (Flex.lean, Parser.lean) are hand-written models of generated code, tied by the read correspondence; yy_get_next_buffer and the bison stack reallocation are outside the model',
